@@ -133,6 +133,8 @@ pub struct PeerOut {
     pub predicted_corrected: u64,
     pub sticky2: u64,
     pub lockstep_stalls: u64,
+    /// Op::Restart carried out on this peer (new process on the same address during the handshake)
+    pub restarts: u32,
     /// calls of the lockstep wait helper during which a packet arrived after the helper's first poll
     pub midwait_deliveries: u64,
     pub fa_samples: Vec<(i32, i32)>,
@@ -755,6 +757,34 @@ pub fn run_typed<I: HInp, P: InputPredictor<I> + 'static>(sc: &Scenario, opts: &
                 }
                 Op::LinkDown { from, to, .. } => net.borrow_mut().kill_link(*from, *to),
                 Op::Outage { from, to, len_ms, .. } => net.borrow_mut().outage(*from, *to, *len_ms as u64),
+                Op::Slow { from, to, len_ms, extra_ms, .. } => net.borrow_mut().slow(*from, *to, *len_ms as u64, *extra_ms as u64),
+                Op::Restart { peer, .. } => {
+                    let p = *peer as usize;
+                    // only while the handshake is still going on: the peer has not advanced a frame and no other
+                    // node has reported it Synchronized (a later restart is, by design, a different session that
+                    // the others must ignore and eventually time out)
+                    let a = peer_addr(p);
+                    let known = peers.iter().enumerate().any(|(q, o)| q != p && o.out.events.iter().any(|e| matches!(e.1, Ev::Synchronized { addr } if addr == a)))
+                        || specs.iter().any(|o| o.out.events.iter().any(|e| matches!(e.1, Ev::Synchronized { addr } if addr == a)))
+                        // ... or could still do so from replies of the old process that are in flight
+                        || net.borrow().links.iter().any(|((from, _), l)| *from == a && l.ledger.sent[crate::sim::wire::Class::SyncReply as usize] >= 5);
+                    if p < np && peers[p].out.alive && peers[p].out.ok_calls == 0 && !known && sc.drain {
+                        match catch_unwind(AssertUnwindSafe(|| build_p2p::<I, P>(sc, p, &net))) {
+                            Ok(Ok(s)) => {
+                                let pe = &mut peers[p];
+                                pe.sess = Some(s);
+                                pe.out.events.clear();
+                                pe.out.running_since_ms = None;
+                                pe.out.restarts += 1;
+                                pe.synced_all = false;
+                                pe.inputs_pending = false;
+                            }
+                            _ => {
+                                viols.push(Viol { prop: "SETUP", clause: "rebuild".into(), msg: "could not rebuild the session for a restart".into(), node: format!("peer{p}"), tick });
+                            }
+                        }
+                    }
+                }
                 Op::Pause { node, ticks, .. } => {
                     let n = *node as usize;
                     if n < np {
@@ -769,7 +799,15 @@ pub fn run_typed<I: HInp, P: InputPredictor<I> + 'static>(sc: &Scenario, opts: &
                         if let Some(s) = peers[p].sess.as_mut() {
                             let r = catch_unwind(AssertUnwindSafe(|| s.disconnect_player(*handle as usize)));
                             match r {
-                                Ok(res) => peers[p].out.misuse_results.push((tick, 50, *handle, res.is_ok())),
+                                Ok(res) => {
+                                    if res.is_ok() {
+                                        // that address needs no handshake any more
+                                        let h = *handle as usize;
+                                        let a = if h < nplayers { peer_addr(owners[h]) } else { spec_addr(h - nplayers) };
+                                        peers[p].neighbours.retain(|x| *x != a);
+                                    }
+                                    peers[p].out.misuse_results.push((tick, 50, *handle, res.is_ok()))
+                                }
                                 Err(_) => {
                                     viols.push(Viol { prop: "PANIC", clause: format!("panic|{}", normalise(&take_panic())), msg: "disconnect_player panicked".into(), node: format!("peer{p}"), tick });
                                     peers[p].out.alive = false;
@@ -990,6 +1028,10 @@ fn tick_peer<I: HInp, P: InputPredictor<I> + 'static>(
         // the first registered submission of a frame is its true input; later submissions for a frame that is
         // still stalled carry other values and must be ignored by the session
         let v = if attempt == 0 { true_input(sc.seed, h, before, vals) } else { true_input(sc.seed ^ (attempt as u64).wrapping_mul(0x9e37_79b9_7f4a_7c15), h, before, vals) };
+        if sc.double_submit {
+            // a decoy first: "older given inputs will be overwritten"
+            let _ = s.add_local_input(h, I::from_v((v + 1 + (tick % 3)) % vals.max(2)));
+        }
         match s.add_local_input(h, I::from_v(v)) {
             Ok(()) => {
                 submitted.push((h, v));
